@@ -76,6 +76,8 @@ def nesting_oracle(outcome, tier, seed):
         for d in depths:
             for sh, data in shapes(fmt, d).items():
                 targets = corpus.FORMATS if tier == "thorough" else [rng.choice(corpus.FORMATS), "json"]
+                if sh == "mapkey":
+                    targets = ["msgpack", "yaml"] if tier == "thorough" else ["msgpack"]     # the targets that can carry a collection as a key
                 for to in dict.fromkeys(targets):
                     for frm in ([fmt, None] if (tier == "thorough" or to == "json") else [fmt]):
                         sched = corpus.random_sched(rng)
@@ -99,7 +101,7 @@ def nesting_oracle(outcome, tier, seed):
                 "source_format": fmt, "from": frm or "detect", "shape": sh, "to": to, "sched": sched,
                 "input_hex": shared.hx(data) if len(data) < 5000 else "(%d bytes; %s x %d)" % (len(data), sh, d),
                 "slice": rs[:2], "reader": rr[:2]})
-        if frm == fmt and to in ("json", "msgpack"):
+        if frm == fmt and (to in ("json", "msgpack") if sh != "mapkey" else to == "msgpack"):
             table.setdefault((fmt, sh), {})[d] = rs[0]
     # one clean limit per format: accept up to L, reject beyond, same L for arrays, maps and mixtures
     limits = {}
@@ -120,6 +122,9 @@ def nesting_oracle(outcome, tier, seed):
         if len(set(ls.values())) > 1:
             outcome.oracle_failures.append({"what": "nesting limit differs between arrays, maps and mixtures", "source_format": fmt,
                                             "limits": ls})
+    if limits.get(("msgpack", "mapkey")) not in (None, 1023):
+        outcome.oracle_failures.append({"what": "MessagePack nesting in map-key position is accepted up to %s collections, not 1023"
+                                        % limits.get(("msgpack", "mapkey")), "source_format": "msgpack", "shape": "mapkey"})
     if limits.get(("msgpack", "array")) not in (None, 1023):
         outcome.oracle_failures.append({"what": "MessagePack accepts up to %s collections around a scalar, not 1023"
                                         % limits.get(("msgpack", "array")), "source_format": "msgpack"})
@@ -168,6 +173,24 @@ def binary_oracle(outcome, tier):
                             outcome.oracle_failures.append({
                                 "what": "the %s binary died with status %d at nesting depth %d" % (name, p.returncode, d),
                                 "format": fmt, "shape": sh, "via": via, "stderr": p.stderr.decode("utf-8", "replace")[-300:]})
+        # legal documents just inside the MessagePack limit, to every target (each serializer recurses in its own way)
+        for d in (900, 1000, 1023):
+            for sh, data in shapes("msgpack", d, ("map", "alt", "array")).items():
+                if sh not in ("map", "alt", "array"):
+                    continue
+                for to in ("toml", "yaml", "msgpack", "json"):
+                    for via in ("stdin", "file"):
+                        if via == "file":
+                            fn = os.path.join(common.BUILD, "run", "legal.msgpack")
+                            open(fn, "wb").write(data)
+                            p = subprocess.run([path, "-t", to, fn], stdout=subprocess.DEVNULL, stderr=subprocess.PIPE, timeout=300)
+                        else:
+                            p = subprocess.run([path, "-f", "msgpack", "-t", to], input=data, stdout=subprocess.DEVNULL, stderr=subprocess.PIPE, timeout=300)
+                        runs += 1
+                        if p.returncode not in (0, 1):
+                            outcome.oracle_failures.append({
+                                "what": "the %s binary died with status %d translating a legal MessagePack document of depth %d to %s" % (name, p.returncode, d, to),
+                                "format": "msgpack", "shape": sh, "via": via, "stderr": p.stderr.decode("utf-8", "replace")[-300:]})
         # table nesting that multiplies (inline tables x dotted keys): bounded by neither of the toml crate's two limits
         for levels in (8, 20, 45, 69):
             data = corpus.toml_dotted_nest(levels)
